@@ -85,7 +85,7 @@ pub fn fork_in_copy<T: Serialize + for<'a> Deserialize<'a>>(
     use std::io::Write;
     let cwd = std::env::current_dir().unwrap();
     let dir = cwd.with_extension(format!("{tag}-{}", std::process::id()));
-    let out_file = dir.with_extension("json");
+    let out_file = PathBuf::from(format!("{}.result.json", dir.display()));
     let _ = std::fs::remove_dir_all(&dir);
     let _ = std::fs::remove_file(&out_file);
     copy_dir(&cwd, &dir).expect("copy");
@@ -116,7 +116,7 @@ pub fn fork_in_dir<T: Serialize + for<'a> Deserialize<'a>>(
     f: impl FnOnce() -> T,
 ) -> (Option<T>, i32) {
     use std::io::Write;
-    let out_file = dir.with_extension("v.json");
+    let out_file = PathBuf::from(format!("{}.v-{}.json", dir.display(), std::process::id()));
     let _ = std::fs::remove_file(&out_file);
     let _ = std::io::stdout().flush();
     let pid = unsafe { libc::fork() };
